@@ -6,7 +6,9 @@ from lib import enc, dec, show
 PID = "C02"
 
 def run(chk):
-    proofs = lib.check_proofs(PID)
+    import os
+    extra = tuple(x for x in ("C02ip4", "C02ip6") if os.path.exists(os.path.join(lib.COQ, "Props", x + ".v")))
+    proofs = lib.check_proofs(PID, extra_props=extra)
     exes = lib.build_impl(); mdl = lib.build_model()
     nstates, suite, rnd, corpus, narrow, wide = c01.build_inputs(chk, mdl)
     plan = {"A": [(narrow, [3, 2, 0, 5])], "W": [(narrow, [3, 4, 1]), (wide, [3])],
